@@ -30,6 +30,7 @@ RULE += ' Round 6: a cluster merged from 35 of 40 templates; a Kilosort-2 templa
 RULE += ' Round 7: float64 templates hold genuinely double values and single-template clusters are compared exactly; in-place curation of a freshly loaded uncurated model (live merge map, templates untouched), then save_spike_clusters(model.spike_clusters) and reload.'
 RULE += ' Round 8: uint16 assignments with far ids and 300-template datasets made deterministic cases (guard against RNG drift).'
 RULE += ' Round 11: every file of the dataset carrying one modification time; a 24000-spike cluster merged from two templates of which the minor one fires first.'
+RULE += ' Round 12: probe tables; templates with exactly silent channels.'
 EXHAUSTIVE = {'quick': False, 'thorough': False}
 FLOORS = {'quick': {'evaluations': 1100, 'distinct_nontrivial': 400},
           'thorough': {'evaluations': 15000, 'distinct_nontrivial': 4000}}
